@@ -68,6 +68,107 @@ def _military_rules(ctx):
     return out
 
 
+def _written_fields(ctx, run):
+    """Date/time fields some input of this run carries as a written value."""
+    out = set()
+    for pat, sh in zip(run.rule.pats, run.shapes):
+        if pat.kind == "regex":
+            _, P = ctx.wrapped(pat.value)
+            out |= {g for g in P.groups if g in F5}
+        elif sh is not None:
+            for x in [sh] + [v for v in sh.attrs.values() if hasattr(v, "attrs")]:
+                out |= {f for f in F5 if isinstance(x.attrs.get(f), IntV)}
+    return out
+
+
+_TS_SAMPLES = None
+
+
+def _varies_with_ts(eng, p, term):
+    """Semantic dependence: does the term take two different values for two reference
+    times while every other leaf is fixed (on valuations consistent with the path)?
+    Undecidable terms count as dependent."""
+    global _TS_SAMPLES
+    import itertools
+    from .. import e4_order as e4
+    from ..e3_rules import _leaf_domain
+    from .relspec import leaves_of, ts_sweep
+    if _TS_SAMPLES is None:
+        sw = ts_sweep("quick")
+        _TS_SAMPLES = sw[::max(1, len(sw) // 60)] + sw[-30:]
+    leaves = set()
+    leaves_of(term, leaves)
+    conds = []
+    for c, t in p.conds:
+        lc = set()
+        leaves_of(c, lc)
+        conds.append((c, t))
+        leaves |= lc
+    order = sorted(leaves, key=repr)
+    others = [l for l in order if l != TS]
+    doms = []
+    for l in others:
+        dm = _leaf_domain(eng.interp, p.st, l)
+        if dm is None:
+            if isinstance(l, tuple) and l and l[0] in ("startswith", "endswith", "in"):
+                dm = [True, False]
+            else:
+                return True
+        if len(dm) > 7:
+            step = max(1, len(dm) // 6)
+            dm = sorted(set(dm[::step]) | {dm[0], dm[-1]})
+        doms.append(dm)
+    try:
+        f = e4.compile_path(conds, [term], order)
+    except Undecided:
+        return True
+    ti = order.index(TS) if TS in order else None
+    if ti is None:
+        return False
+    size = 1
+    for d_ in doms:
+        size *= len(d_)
+    if size > 4000:
+        return True
+    for combo in itertools.product(*doms):
+        seen = set()
+        for ts in _TS_SAMPLES:
+            a = list(combo)
+            a.insert(ti, ts)
+            r = f(a)
+            if r is not None:
+                seen.add(r[0])
+                if len(seen) > 1:
+                    return True
+    return False
+
+
+_CLOCK_GROUPS = {}
+
+
+def _explicit_clock(ctx, rule, p):
+    """Does this path handle a match in which a group accepting 'uhr' participated?"""
+    text = rule.pats[0].value
+    if text not in _CLOCK_GROUPS:
+        _, P = ctx.wrapped(text)
+        from .lang import _strip_looks
+        names = set()
+        for g in P.groups:
+            if g.startswith(("R", "_")):
+                continue
+            try:
+                nfa = e2.build_nfa(_strip_looks(P.group(g).child), P)
+            except Undecided:
+                continue
+            if 3 in e2.nfa_match_prefixes(nfa, "uhr"):
+                names.add(g)
+        _CLOCK_GROUPS[text] = names
+    names = _CLOCK_GROUPS[text]
+    moid = [o.oid for o in p.st.heap.values() if o.sym == ("param", 0, rule.params[1])]
+    cfgs = p.st.cfg.get(moid[0]) if moid else None
+    return bool(names) and bool(cfgs) and all(names & cfg for cfg in cfgs)
+
+
 def _conds_mention_ts(conds):
     for sym, _ in conds:
         if sym_mentions(sym, TS):
@@ -95,13 +196,20 @@ def _noninterference(ctx, rep, eng):
                             dep[f] = sym_mentions(v.sym, TS)
                     if any(dep.values()):
                         uses_ts = True
-                    if dep and any(dep.values()) and not all(dep.values()):
-                        bad = bad or "fields {} depend on the reference time, fields {} are written".format(
-                            sorted(f for f in dep if dep[f]), sorted(f for f in dep if not dep[f]))
+                    written = _written_fields(ctx, run)
+                    if set(dep) == {"year"}:
+                        written = written - {"year"}     # the bare-year rule's two-digit window
+                    for f in sorted(written & set(dep)):
+                        if dep[f] and _varies_with_ts(eng, p, o.attrs[f].sym):
+                            bad = bad or "field {} is written in the text but its value changes with the " \
+                                "reference time".format(f)
                     if ctrl and dep and not any(dep.values()):
                         uses_ts = True
                         if name not in military:
                             bad = bad or "a condition on the reference time decides a value built from written fields"
+                if ctrl and name in military and _explicit_clock(ctx, rule, p):
+                    bad = bad or "a time written with an explicit clock marker (uhr/h) still depends on the " \
+                        "reference time (the year heuristic is only for bare hhmm)"
                 if ctrl and p.is_none() and not objs:
                     # rejecting depending on ts: only the military heuristic may
                     if name not in military and not _ts_only_rule(run):
